@@ -24,3 +24,7 @@ func VerifFlattenMetadata(data map[string]interface{}, prefix string) map[string
 func VerifFormatValue(val interface{}) string {
 	return formatValue(val)
 }
+
+// VerifSplitIntoSentences exposes splitIntoSentences to the verification harness
+// (the sentence splitter is a parameter of the C12 model of the layout-based chunker).
+func VerifSplitIntoSentences(text string) []string { return splitIntoSentences(text) }
